@@ -9,7 +9,7 @@ import SimVerif.Lemmas.HandlersTcpSys
 namespace SimVerif
 
 /-- **UDP frame**: what an operation on UDP socket `a` (whose forwarder is `fw`) may change -/
-structure UFrame (a : String) (fw : Option Nat) (n n' : NetSt) : Prop where
+structure UdpFrame (a : String) (fw : Option Nat) (n n' : NetSt) : Prop where
   udp    : ∀ b, b ≠ a → n'.udp? b = n.udp? b
   tcps   : n'.tcps = n.tcps
   chans  : n'.chans = n.chans
@@ -21,7 +21,7 @@ structure UFrame (a : String) (fw : Option Nat) (n n' : NetSt) : Prop where
 
 /-- **TCP frame**: what an operation on TCP socket / acceptor `a` (forwarder `fw`, channel `ch`)
     may change -/
-structure TFrame (a : String) (fw ch : Option Nat) (n n' : NetSt) : Prop where
+structure TcpFrame (a : String) (fw ch : Option Nat) (n n' : NetSt) : Prop where
   tcp     : ∀ b, b ≠ a → n'.tcp? b = n.tcp? b
   udps    : n'.udps = n.udps
   cfg     : n'.cfg = n.cfg
@@ -112,28 +112,28 @@ theorem udpClose_fwds_length (n : NetSt) (a : String) : (n.udpClose a).1.fwds.le
 
 /-! ### UDP frame -/
 
-theorem _root_.SimVerif.UFrame.refl (a : String) (fw : Option Nat) (n : NetSt) : UFrame a fw n n :=
+theorem _root_.SimVerif.UdpFrame.refl (a : String) (fw : Option Nat) (n : NetSt) : UdpFrame a fw n n :=
   ⟨fun _ _ => rfl, rfl, rfl, rfl, rfl, rfl, fun _ _ _ => rfl, Nat.le_refl _⟩
 
-theorem _root_.SimVerif.UFrame.setUdp {a : String} {fw : Option Nat} {n n' : NetSt} (u : UdpSock) (h : UFrame a fw n n') :
-    UFrame a fw n (n'.setUdp a u) :=
+theorem _root_.SimVerif.UdpFrame.setUdp {a : String} {fw : Option Nat} {n n' : NetSt} (u : UdpSock) (h : UdpFrame a fw n n') :
+    UdpFrame a fw n (n'.setUdp a u) :=
   ⟨fun b hb => by rw [setUdp_udp_other _ _ _ _ hb]; exact h.udp b hb, h.tcps, h.chans, h.cfg, h.regt, h.regu,
     h.fwd, h.fwdlen⟩
 
-theorem uframe_udpBind (n : NetSt) (a : String) (ep : Ep) (fw : Option Nat) : UFrame a fw n (n.udpBind a ep).1 := by
+theorem uframe_udpBind (n : NetSt) (a : String) (ep : Ep) (fw : Option Nat) : UdpFrame a fw n (n.udpBind a ep).1 := by
   unfold NetSt.udpBind
   split
-  · exact UFrame.refl a fw n
+  · exact UdpFrame.refl a fw n
   · split
-    · exact UFrame.refl a fw n
+    · exact UdpFrame.refl a fw n
     · split
-      · exact UFrame.refl a fw n
+      · exact UdpFrame.refl a fw n
       · split
-        · exact UFrame.refl a fw n
+        · exact UdpFrame.refl a fw n
         · split
-          · exact UFrame.refl a fw n
+          · exact UdpFrame.refl a fw n
           · dsimp only
-            have hreg : ∀ ep1, UFrame a fw n { n with reg := { n.reg with
+            have hreg : ∀ ep1, UdpFrame a fw n { n with reg := { n.reg with
                 udp := (simBind n.reg.udp n.reg.nextPort a ep1).1,
                 nextPort := (simBind n.reg.udp n.reg.nextPort a ep1).2.1 } } := fun ep1 =>
               ⟨fun _ _ => rfl, rfl, rfl, rfl, rfl, simBind_filter _ _ _ _, fun _ _ _ => rfl, Nat.le_refl _⟩
@@ -142,7 +142,7 @@ theorem uframe_udpBind (n : NetSt) (a : String) (ep : Ep) (fw : Option Nat) : UF
             · exact (hreg _).setUdp _
 
 theorem uframe_udpClose (n : NetSt) (a : String) (u : UdpSock) (h : n.udp? a = some u) :
-    UFrame a u.fwd n (n.udpClose a).1 := by
+    UdpFrame a u.fwd n (n.udpClose a).1 := by
   refine ⟨?_, ?_, ?_, ?_, ?_, ?_, fun g _ hg => udpClose_fwd_other n a u g h hg,
     by rw [udpClose_fwds_length]; exact Nat.le_refl _⟩
   all_goals (unfold NetSt.udpClose; rw [h]; dsimp only)
@@ -156,7 +156,7 @@ theorem uframe_udpClose (n : NetSt) (a : String) (u : UdpSock) (h : n.udp? a = s
   · splits <;> first | rfl | exact simUnbind_filter _ _ _
 
 theorem uframe_udpOpen (n : NetSt) (a : String) (v4 : Bool) (u : UdpSock) (h : n.udp? a = some u) :
-    UFrame a u.fwd n (n.udpOpen a v4).1 := by
+    UdpFrame a u.fwd n (n.udpOpen a v4).1 := by
   have hc := uframe_udpClose n a u h
   obtain ⟨hs, _⟩ := udpClose_some n a u h
   unfold NetSt.udpOpen
@@ -171,19 +171,19 @@ theorem uframe_udpOpen (n : NetSt) (a : String) (v4 : Bool) (u : UdpSock) (h : n
   · show n.fwds.length ≤ ((n.udpClose a).1.newFwd a).1.fwds.length
     rw [newFwd_length, udpClose_fwds_length]; omega
 
-theorem uframe_setUdp_only (n : NetSt) (a : String) (u : UdpSock) (fw : Option Nat) : UFrame a fw n (n.setUdp a u) :=
-  (UFrame.refl a fw n).setUdp u
+theorem uframe_setUdp_only (n : NetSt) (a : String) (u : UdpSock) (fw : Option Nat) : UdpFrame a fw n (n.setUdp a u) :=
+  (UdpFrame.refl a fw n).setUdp u
 
 theorem uframe_udpSendTo (n : NetSt) (now : Int) (a : String) (dst : Ep) (pl : List UInt8) (fw : Option Nat) :
-    UFrame a fw n (n.udpSendTo now a dst pl).1 := by
+    UdpFrame a fw n (n.udpSendTo now a dst pl).1 := by
   unfold NetSt.udpSendTo
   split
-  · exact UFrame.refl a fw n
+  · exact UdpFrame.refl a fw n
   · rename_i u0 hu0
     dsimp only
     have hb : ∀ r : NetSt × Ec, r = (if ((u0.abortSend a).1).bound.isDefault = true
         then (n.setUdp a (u0.abortSend a).1).udpBind a {} else (n.setUdp a (u0.abortSend a).1, Ec.ok)) →
-        UFrame a fw n r.1 := by
+        UdpFrame a fw n r.1 := by
       intro r hr
       split at hr
       · subst hr
@@ -201,7 +201,7 @@ theorem uframe_udpSendTo (n : NetSt) (now : Int) (a : String) (dst : Ep) (pl : L
 
 /-- every label of the one-UDP-socket system leaves every other object alone -/
 theorem uframe_label (n : NetSt) (a : String) (l : ULbl) (u : UdpSock) (h : n.udp? a = some u) :
-    UFrame a u.fwd n (l.eff a n).1 := by
+    UdpFrame a u.fwd n (l.eff a n).1 := by
   cases l with
   | recv op => simp only [ULbl.eff, NetSt.udpAsyncRecv, h]; exact uframe_setUdp_only _ _ _ _
   | waitRead hd => simp only [ULbl.eff, NetSt.udpWaitRead, h]; exact uframe_setUdp_only _ _ _ _
@@ -217,20 +217,20 @@ theorem uframe_label (n : NetSt) (a : String) (l : ULbl) (u : UdpSock) (h : n.ud
   | incoming p => simp only [ULbl.eff, h]; exact uframe_setUdp_only _ _ _ _
   | sendTimer ab =>
     simp only [ULbl.eff, NetSt.udpSendWaitFired, h]
-    splits <;> first | exact UFrame.refl _ _ _ | exact uframe_setUdp_only _ _ _ _
+    splits <;> first | exact UdpFrame.refl _ _ _ | exact uframe_setUdp_only _ _ _ _
 
 /-! ### TCP frame -/
 
-theorem _root_.SimVerif.TFrame.refl (a : String) (fw ch : Option Nat) (n : NetSt) : TFrame a fw ch n n :=
+theorem _root_.SimVerif.TcpFrame.refl (a : String) (fw ch : Option Nat) (n : NetSt) : TcpFrame a fw ch n n :=
   ⟨fun _ _ => rfl, rfl, rfl, rfl, rfl, fun _ _ _ => rfl, Nat.le_refl _, fun _ _ _ => rfl, Nat.le_refl _⟩
 
-theorem _root_.SimVerif.TFrame.setTcp {a : String} {fw ch : Option Nat} {n n' : NetSt} (t : TcpSock)
-    (h : TFrame a fw ch n n') : TFrame a fw ch n (n'.setTcp a t) :=
+theorem _root_.SimVerif.TcpFrame.setTcp {a : String} {fw ch : Option Nat} {n n' : NetSt} (t : TcpSock)
+    (h : TcpFrame a fw ch n n') : TcpFrame a fw ch n (n'.setTcp a t) :=
   ⟨fun b hb => by rw [setTcp_tcp_other _ _ _ _ hb]; exact h.tcp b hb, h.udps, h.cfg, h.regu, h.regt,
     h.fwd, h.fwdlen, h.chan, h.chanlen⟩
 
-theorem _root_.SimVerif.TFrame.trans {a : String} {fw ch : Option Nat} {n n1 n2 : NetSt}
-    (h1 : TFrame a fw ch n n1) (h2 : TFrame a fw ch n1 n2) : TFrame a fw ch n n2 :=
+theorem _root_.SimVerif.TcpFrame.trans {a : String} {fw ch : Option Nat} {n n1 n2 : NetSt}
+    (h1 : TcpFrame a fw ch n n1) (h2 : TcpFrame a fw ch n1 n2) : TcpFrame a fw ch n n2 :=
   ⟨fun b hb => by rw [h2.tcp b hb, h1.tcp b hb], by rw [h2.udps, h1.udps], by rw [h2.cfg, h1.cfg],
     by rw [h2.regu, h1.regu], by rw [h2.regt, h1.regt],
     fun g hg hne => by rw [h2.fwd g (Nat.lt_of_lt_of_le hg h1.fwdlen) hne, h1.fwd g hg hne],
@@ -239,8 +239,8 @@ theorem _root_.SimVerif.TFrame.trans {a : String} {fw ch : Option Nat} {n n1 n2 
     Nat.le_trans h1.chanlen h2.chanlen⟩
 
 /-- a step that changes less may be used where more is allowed -/
-theorem _root_.SimVerif.TFrame.mono {a : String} {fw ch fw' ch' : Option Nat} {n n' : NetSt}
-    (h : TFrame a fw ch n n') (hf : fw = none ∨ fw = fw') (hc : ch = none ∨ ch = ch') : TFrame a fw' ch' n n' :=
+theorem _root_.SimVerif.TcpFrame.mono {a : String} {fw ch fw' ch' : Option Nat} {n n' : NetSt}
+    (h : TcpFrame a fw ch n n') (hf : fw = none ∨ fw = fw') (hc : ch = none ∨ ch = ch') : TcpFrame a fw' ch' n n' :=
   ⟨h.tcp, h.udps, h.cfg, h.regu, h.regt,
     fun g hg hne => h.fwd g hg (by rcases hf with hf | hf <;> subst hf <;> first | exact hne | exact (fun e => by cases e)),
     h.fwdlen,
@@ -255,14 +255,14 @@ theorem setChan_chan_other (n : NetSt) (c c' : Nat) (x : Chan) (h : c' ≠ c) : 
   | some y => simp [h]
 
 theorem tframe_tcpSendPacket (n : NetSt) (now : Int) (name : String) (p : Pkt) (s : TcpSock) (fw : Option Nat)
-    (hs : n.tcp? name = some s) : TFrame name fw s.chan n (n.tcpSendPacket now name p).1 := by
+    (hs : n.tcp? name = some s) : TcpFrame name fw s.chan n (n.tcpSendPacket now name p).1 := by
   unfold NetSt.tcpSendPacket
   rw [hs]; dsimp only
   split
-  · exact TFrame.refl _ _ _ _
+  · exact TcpFrame.refl _ _ _ _
   · rename_i ch hch
     dsimp only
-    refine TFrame.setTcp _ ?_
+    refine TcpFrame.setTcp _ ?_
     refine ⟨fun _ _ => rfl, rfl, rfl, rfl, rfl, fun _ _ _ => rfl, Nat.le_refl _, fun c _ hne => ?_,
       by rw [setChan_length]; exact Nat.le_refl _⟩
     cases hsc : s.chan with
@@ -272,19 +272,19 @@ theorem tframe_tcpSendPacket (n : NetSt) (now : Int) (name : String) (p : Pkt) (
       exact setChan_chan_other n _ c _ (fun e => hne (by rw [e]; rfl))
 
 theorem tframe_tcpCloseEof (n : NetSt) (now : Int) (name : String) (s0 : TcpSock) (fw : Option Nat)
-    (hs : n.tcp? name = some s0) : TFrame name fw s0.chan n (tcpCloseEof n now name s0).1 := by
+    (hs : n.tcp? name = some s0) : TcpFrame name fw s0.chan n (tcpCloseEof n now name s0).1 := by
   unfold tcpCloseEof
   splits <;> first
-    | exact TFrame.refl _ _ _ _
-    | exact ((TFrame.refl name fw s0.chan n).setTcp _).trans
+    | exact TcpFrame.refl _ _ _ _
+    | exact ((TcpFrame.refl name fw s0.chan n).setTcp _).trans
         (tframe_tcpSendPacket (n.setTcp name { s0 with nextOut := s0.nextOut + 1 }) now name _
           { s0 with nextOut := s0.nextOut + 1 } fw (setTcp_tcp_same _ _ _))
 
 theorem tframe_tcpCloseFin (n : NetSt) (name : String) (e0 : List NEff) (s : TcpSock) (ch : Option Nat)
-    (hs : n.tcp? name = some s) : TFrame name s.fwd ch n (tcpCloseFin n name e0).1 := by
+    (hs : n.tcp? name = some s) : TcpFrame name s.fwd ch n (tcpCloseFin n name e0).1 := by
   unfold tcpCloseFin
   rw [hs]; dsimp only
-  refine TFrame.setTcp _ ?_
+  refine TcpFrame.setTcp _ ?_
   refine ⟨fun b _ => ?_, ?_, ?_, ?_, ?_, fun g _ hne => ?_, ?_, fun c _ _ => ?_, ?_⟩
   · splits <;> rfl
   · splits <;> rfl
@@ -305,7 +305,7 @@ theorem tframe_tcpCloseFin (n : NetSt) (name : String) (e0 : List NEff) (s : Tcp
   · splits <;> exact Nat.le_refl _
 
 theorem tframe_tcpClose (n : NetSt) (now : Int) (name : String) (s : TcpSock) (hs : n.tcp? name = some s) :
-    TFrame name s.fwd s.chan n (n.tcpClose now name).1 := by
+    TcpFrame name s.fwd s.chan n (n.tcpClose now name).1 := by
   rw [tcpClose_eq, hs]; dsimp only
   obtain ⟨t', ht', _, _, _, _, _, a6, _, _, _, _⟩ := tcpCloseEof_slots n now name s hs name s hs
   have h2 := tframe_tcpCloseFin (tcpCloseEof n now name s).1 name (tcpCloseEof n now name s).2 t' s.chan ht'
@@ -349,13 +349,13 @@ theorem tcpClose_detached (n : NetSt) (now : Int) (name : String) (s : TcpSock) 
   exact setFwd_none_fwdTarget_same n f
 
 theorem tframe_tcpOpen (n : NetSt) (now : Int) (name : String) (v4 : Bool) (s : TcpSock) (hs : n.tcp? name = some s) :
-    TFrame name s.fwd s.chan n (n.tcpOpen now name v4).1 := by
+    TcpFrame name s.fwd s.chan n (n.tcpOpen now name v4).1 := by
   have hc := tframe_tcpClose n now name s hs
   obtain ⟨_, s1, hs1, _⟩ := tcpClose_some n now name s hs
   unfold NetSt.tcpOpen
   dsimp only
   rw [hs1]; dsimp only
-  refine hc.trans (TFrame.setTcp _ ?_)
+  refine hc.trans (TcpFrame.setTcp _ ?_)
   refine ⟨fun _ _ => rfl, rfl, rfl, rfl, rfl, fun g hg _ => ?_, by rw [newFwd_length]; omega, fun _ _ _ => rfl,
     Nat.le_refl _⟩
   rw [newFwd_fwdTarget]
@@ -363,20 +363,20 @@ theorem tframe_tcpOpen (n : NetSt) (now : Int) (name : String) (v4 : Bool) (s : 
   simp [this]
 
 theorem tframe_tcpBind (n : NetSt) (name : String) (ep : Ep) (fw ch : Option Nat) :
-    TFrame name fw ch n (n.tcpBind name ep).1 := by
+    TcpFrame name fw ch n (n.tcpBind name ep).1 := by
   unfold NetSt.tcpBind
   split
-  · exact TFrame.refl _ _ _ _
+  · exact TcpFrame.refl _ _ _ _
   · split
-    · exact TFrame.refl _ _ _ _
+    · exact TcpFrame.refl _ _ _ _
     · split
-      · exact TFrame.refl _ _ _ _
+      · exact TcpFrame.refl _ _ _ _
       · split
-        · exact TFrame.refl _ _ _ _
+        · exact TcpFrame.refl _ _ _ _
         · split
-          · exact TFrame.refl _ _ _ _
+          · exact TcpFrame.refl _ _ _ _
           · dsimp only
-            have hreg : ∀ ep1, TFrame name fw ch n { n with reg := { n.reg with
+            have hreg : ∀ ep1, TcpFrame name fw ch n { n with reg := { n.reg with
                 tcp := (simBind n.reg.tcp n.reg.nextPort name ep1).1,
                 nextPort := (simBind n.reg.tcp n.reg.nextPort name ep1).2.1 } } := fun ep1 =>
               ⟨fun _ _ => rfl, rfl, rfl, rfl, simBind_filter _ _ _ _, fun _ _ _ => rfl, Nat.le_refl _,
@@ -386,33 +386,33 @@ theorem tframe_tcpBind (n : NetSt) (name : String) (ep : Ep) (fw ch : Option Nat
             · exact (hreg _).setTcp _
 
 theorem tframe_setTcp_only (n : NetSt) (a : String) (t : TcpSock) (fw ch : Option Nat) :
-    TFrame a fw ch n (n.setTcp a t) := (TFrame.refl a fw ch n).setTcp t
+    TcpFrame a fw ch n (n.setTcp a t) := (TcpFrame.refl a fw ch n).setTcp t
 
 /-- the per-socket operations of a TCP socket / acceptor `a` that only replace the object -/
 theorem tframe_simple (tp : TParams) (n : NetSt) (a : String) (fw ch : Option Nat) (rop : ReadOp) (wop : WriteOp)
     (h : Nat) (caps : List Nat) (qs : Int) (r : Except Ec Nat) :
-    TFrame a fw ch n (n.tcpCancel a).1 ∧ TFrame a fw ch n (n.tcpAsyncRead a rop).1
-    ∧ TFrame a fw ch n (n.tcpWaitRead a h).1 ∧ TFrame a fw ch n (n.tcpAsyncWrite a wop).1
-    ∧ TFrame a fw ch n (n.tcpReadNb a caps).1 ∧ TFrame a fw ch n (n.accCancel a).1
-    ∧ TFrame a fw ch n (n.accListen a qs).1 ∧ TFrame a fw ch n (n.tcpWriteFinish a wop r).1
-    ∧ TFrame a fw ch n (n.tcpAckPost tp a true h).1 := by
+    TcpFrame a fw ch n (n.tcpCancel a).1 ∧ TcpFrame a fw ch n (n.tcpAsyncRead a rop).1
+    ∧ TcpFrame a fw ch n (n.tcpWaitRead a h).1 ∧ TcpFrame a fw ch n (n.tcpAsyncWrite a wop).1
+    ∧ TcpFrame a fw ch n (n.tcpReadNb a caps).1 ∧ TcpFrame a fw ch n (n.accCancel a).1
+    ∧ TcpFrame a fw ch n (n.accListen a qs).1 ∧ TcpFrame a fw ch n (n.tcpWriteFinish a wop r).1
+    ∧ TcpFrame a fw ch n (n.tcpAckPost tp a true h).1 := by
   refine ⟨?_, ?_, ?_, ?_, ?_, ?_, ?_, ?_, ?_⟩
-  · unfold NetSt.tcpCancel; split <;> first | exact TFrame.refl _ _ _ _ | exact tframe_setTcp_only _ _ _ _ _
-  · unfold NetSt.tcpAsyncRead; split <;> first | exact TFrame.refl _ _ _ _ | exact tframe_setTcp_only _ _ _ _ _
-  · unfold NetSt.tcpWaitRead; split <;> first | exact TFrame.refl _ _ _ _ | exact tframe_setTcp_only _ _ _ _ _
-  · unfold NetSt.tcpAsyncWrite; split <;> first | exact TFrame.refl _ _ _ _ | exact tframe_setTcp_only _ _ _ _ _
-  · unfold NetSt.tcpReadNb; split <;> first | exact TFrame.refl _ _ _ _ | exact tframe_setTcp_only _ _ _ _ _
-  · unfold NetSt.accCancel; split <;> first | exact TFrame.refl _ _ _ _ | exact tframe_setTcp_only _ _ _ _ _
-  · unfold NetSt.accListen; splits <;> first | exact TFrame.refl _ _ _ _ | exact tframe_setTcp_only _ _ _ _ _
-  · unfold NetSt.tcpWriteFinish; splits <;> first | exact TFrame.refl _ _ _ _ | exact tframe_setTcp_only _ _ _ _ _
-  · unfold NetSt.tcpAckPost; split <;> first | exact TFrame.refl _ _ _ _ | exact tframe_setTcp_only _ _ _ _ _
+  · unfold NetSt.tcpCancel; split <;> first | exact TcpFrame.refl _ _ _ _ | exact tframe_setTcp_only _ _ _ _ _
+  · unfold NetSt.tcpAsyncRead; split <;> first | exact TcpFrame.refl _ _ _ _ | exact tframe_setTcp_only _ _ _ _ _
+  · unfold NetSt.tcpWaitRead; split <;> first | exact TcpFrame.refl _ _ _ _ | exact tframe_setTcp_only _ _ _ _ _
+  · unfold NetSt.tcpAsyncWrite; split <;> first | exact TcpFrame.refl _ _ _ _ | exact tframe_setTcp_only _ _ _ _ _
+  · unfold NetSt.tcpReadNb; split <;> first | exact TcpFrame.refl _ _ _ _ | exact tframe_setTcp_only _ _ _ _ _
+  · unfold NetSt.accCancel; split <;> first | exact TcpFrame.refl _ _ _ _ | exact tframe_setTcp_only _ _ _ _ _
+  · unfold NetSt.accListen; splits <;> first | exact TcpFrame.refl _ _ _ _ | exact tframe_setTcp_only _ _ _ _ _
+  · unfold NetSt.tcpWriteFinish; splits <;> first | exact TcpFrame.refl _ _ _ _ | exact tframe_setTcp_only _ _ _ _ _
+  · unfold NetSt.tcpAckPost; split <;> first | exact TcpFrame.refl _ _ _ _ | exact tframe_setTcp_only _ _ _ _ _
 
 theorem tframe_accClose (n : NetSt) (now : Int) (name : String) (s : TcpSock) (a : AccState)
     (hs : n.tcp? name = some s) (ha : s.acc = some a) :
-    TFrame name s.fwd s.chan n (n.accClose now name).1 := by
+    TcpFrame name s.fwd s.chan n (n.accClose now name).1 := by
   obtain ⟨_, s', _, _, _, _, _, _, _, _, _, s1, heq, e1, e2, _⟩ := accClose_posts n now name s a hs ha
   rw [heq]
-  refine TFrame.setTcp _ ?_
+  refine TcpFrame.setTcp _ ?_
   have h2 := tframe_tcpClose (n.setTcp name s1) now name s1 (setTcp_tcp_same _ _ _)
   rw [e1, e2] at h2
   exact (tframe_setTcp_only n name s1 s.fwd s.chan).trans h2
@@ -431,25 +431,25 @@ theorem accClose_detached (n : NetSt) (now : Int) (name : String) (s : TcpSock) 
     forwarder other than its own stay as they are. -/
 theorem tframe_tcpConnect (n : NetSt) (now : Int) (name : String) (target : Ep) (h : Nat) (s0 : TcpSock)
     (hs0 : n.tcp? name = some s0) :
-    TFrame name s0.fwd s0.chan n (n.tcpConnect now name target h).1 := by
+    TcpFrame name s0.fwd s0.chan n (n.tcpConnect now name target h).1 := by
   rw [tcpConnect_eq, hs0]; dsimp only
-  have hA : TFrame name s0.fwd s0.chan n
+  have hA : TcpFrame name s0.fwd s0.chan n
       (if (!s0.isOpen) = true then n.tcpOpen now name target.isV4 else (n, [])).1 := by
     split
     · exact tframe_tcpOpen n now name target.isV4 s0 hs0
-    · exact TFrame.refl _ _ _ _
+    · exact TcpFrame.refl _ _ _ _
   generalize (if (!s0.isOpen) = true then n.tcpOpen now name target.isV4 else (n, [])) = x at hA
   split
   · exact hA
   · rename_i s hs
-    have hB : TFrame name s0.fwd s0.chan x.1 (tcpConnectBind x.1 name s target).1 := by
+    have hB : TcpFrame name s0.fwd s0.chan x.1 (tcpConnectBind x.1 name s target).1 := by
       unfold tcpConnectBind
       split
       · dsimp only
         split
-        · exact TFrame.refl _ _ _ _
+        · exact TcpFrame.refl _ _ _ _
         · try dsimp only
-          have hreg : ∀ ep1, TFrame name s0.fwd s0.chan x.1 { x.1 with reg := { x.1.reg with
+          have hreg : ∀ ep1, TcpFrame name s0.fwd s0.chan x.1 { x.1 with reg := { x.1.reg with
               tcp := (simBind x.1.reg.tcp x.1.reg.nextPort name ep1).1,
               nextPort := (simBind x.1.reg.tcp x.1.reg.nextPort name ep1).2.1 } } := fun ep1 =>
             ⟨fun _ _ => rfl, rfl, rfl, rfl, simBind_filter _ _ _ _, fun _ _ _ => rfl, Nat.le_refl _,
@@ -457,21 +457,21 @@ theorem tframe_tcpConnect (n : NetSt) (now : Int) (name : String) (target : Ep) 
           split
           · exact hreg _
           · exact (hreg _).setTcp _
-      · exact TFrame.refl _ _ _ _
+      · exact TcpFrame.refl _ _ _ _
     refine (hA.trans hB).trans ?_
     generalize (tcpConnectBind x.1 name s target) = y
     unfold tcpConnectFin
     split
-    · exact TFrame.refl _ _ _ _
+    · exact TcpFrame.refl _ _ _ _
     · split
-      · exact TFrame.refl _ _ _ _
+      · exact TcpFrame.refl _ _ _ _
       · split
-        · exact TFrame.refl _ _ _ _
+        · exact TcpFrame.refl _ _ _ _
         · dsimp only
-          have hI : TFrame name s0.fwd s0.chan y.1 (y.1.internalConnect name target).1 := by
+          have hI : TcpFrame name s0.fwd s0.chan y.1 (y.1.internalConnect name target).1 := by
             unfold NetSt.internalConnect
             splits <;> first
-              | exact TFrame.refl _ _ _ _
+              | exact TcpFrame.refl _ _ _ _
               | (refine ⟨fun _ _ => rfl, rfl, rfl, rfl, rfl, fun _ _ _ => rfl, Nat.le_refl _, fun c hc _ => ?_, by simp⟩
                  unfold NetSt.chan?
                  dsimp only
